@@ -389,8 +389,10 @@ impl QosPolicies {
 
     // check Ownership:
     // offered kind == requested kind
+    // Only the kind is subject to matching; the strength of an exclusive
+    // writer arbitrates between matched writers.
     if let (Some(off), Some(req)) = (self.ownership, other.ownership) {
-      if off != req {
+      if std::mem::discriminant(&off) != std::mem::discriminant(&req) {
         return Some(QosPolicyId::Ownership);
       }
     }
